@@ -545,6 +545,18 @@ EXTRA_ENVS = [
 ]
 
 
+def action_coverage(chk, module, cfgs):
+    """DESIGN 3.3 (3): tlc -coverage 1 on exhaustive configurations; an action that never fires is listed."""
+    counts = {}
+    for cfg in cfgs:
+        res = core.run_tlc(module, cfg, workers=4, timeout=3000, xmx="4g", coverage=True)
+        for m in re.finditer(r"^<(\w+) line \d+, col \d+ to line \d+, col \d+ of module \w+>: (\d+):(\d+)", res.out, re.M):
+            if m.group(1) not in ("Init",):
+                counts[m.group(1)] = counts.get(m.group(1), 0) + int(m.group(3))
+    chk.extra["action_coverage"] = counts
+    chk.extra["actions_not_exercised"] = sorted(a for a, n in counts.items() if n == 0)
+
+
 def run(tier):
     chk = core.Check("C07", tier, "model_checking")
     core.run_cmd(["make", "-s", "-C", os.path.join(core.VERIF, "tools"), "bin/launch"])
@@ -639,6 +651,8 @@ def run(tier):
             chk.sample({"mode": mode, "build": build, "argv": [show(a) for a in r["argv"]], "env": [show(e) for e in r["env"]],
                         "look": [[show(l["key"]), fmt_res(l["varu"])] for l in r["look"]], "mono": r["mono"]})
     conformance(chk, stack_pool, 64 if quick else 400)
+    if not quick:
+        action_coverage(chk, "Startup_MC.tla", ["Startup_boot.cfg", "Startup_lookup2.cfg"])
     core.log("C07: judged (t=%.0fs)" % (time.time() - chk.t0))
     chk.nontrivial = len(nontrivial)
     chk.exhaustive = not quick
